@@ -90,7 +90,7 @@ def drill(ids, all_checks):
     sd = os.path.join(V, 'seeded')
     man = json.load(open(os.path.join(V, 'MANIFEST.json')))
     claimed = [c['property_id'] for c in man['checks']]
-    ids = ids or sorted(d for d in os.listdir(sd) if os.path.isdir(os.path.join(sd, d)))
+    ids = ids or sorted(d for d in os.listdir(sd) if os.path.exists(os.path.join(sd, d, 'meta.json')))
     rc, out = sh('git status --porcelain --untracked-files=no', cwd=R)
     assert out.strip() == '', '/repo is dirty:\n' + out
     resf = os.path.join(sd, 'RESULTS.json')
